@@ -87,6 +87,11 @@ def cases(tier, seed):
         for e in ('sw', 'gp', 'odd', 'gp-right', 'half', 'cp'):
             out.append(dict(kind='expr', cfg=cfg, expr=e, mode='array', res_like=False))
             out.append(dict(kind='expr', cfg=cfg, expr=e, mode='array', res_like=True))
+        # the NAME of the symbolic last argument is not part of the contract (single capital letters are what the
+        # implementation uses for its own stand-ins of array-valued inputs)
+        for e, xname in (('sw', 'A'), ('gp', 'A'), ('cp', 'B'), ('half', 'A'), ('sw', 'R')):
+            for mode in ('array', 'numeric', 'symbolic'):
+                out.append(dict(kind='expr', cfg=cfg, expr=e, mode=mode, res_like=False, xname=xname))
     return out
 
 
@@ -189,9 +194,13 @@ def _run_expr(desc, V, alg):
     mode = desc['mode']
     claims = []
     sym_inputs, num_inputs, env = [], [], {}
-    for nm, what in zip(names, kinds):
+    xname = desc.get('xname', 'x')
+    if mode == 'symbolic' and xname in names:
+        xname = 'x'          # (two symbolic inputs of one name are one input)
+    names = names[:-1] + [xname]
+    for pos, (nm, what) in enumerate(zip(names, kinds)):
         keys = _keys_of(alg, what)
-        last = nm == 'x'
+        last = pos == len(names) - 1
         if last or mode == 'symbolic':
             m = alg.multivector(name=nm, keys=tuple(keys))
             vals = []
